@@ -138,6 +138,8 @@ func namedLine(msg string) (int, bool) {
 
 var optCombos = [4][2]bool{{false, false}, {true, false}, {false, true}, {true, true}}
 
+func runInputX(r *vlib.Rec, data string) { runInput(r, data, "") }
+
 func runInput(r *vlib.Rec, data, giant string) {
 	for _, o := range optCombos {
 		r.Eval()
@@ -246,6 +248,11 @@ func run(tier, unit string, r *vlib.Rec) {
 			}
 			s := string(buf)
 			if bom {
+				// full byte-order mark, and streams truncated inside it
+				for _, pre := range []string{"\xef", "\xef\xbb", "\xef\xbb\xbf\xef"} {
+					r.Count("bom-truncated")
+					runInputX(r, pre+s)
+				}
 				s = "\xef\xbb\xbf" + s
 				r.Count("bom")
 			}
